@@ -810,6 +810,14 @@ func (fc *fnCtx) sortedByLess(st *state, c *ssa.CallCommon, ins ssa.Instruction,
 			"result":                  {T: "false", S: "Bool"},
 			"result0":                 {T: "false", S: "Bool"},
 		}
+		// the contract may still use the names the parameters had when it was written
+		for old, cur := range fc.e.paramRenames(info.fn) {
+			if b, ok := bind[cur]; ok {
+				if _, clash := bind[old]; !clash {
+					bind[old] = b
+				}
+			}
+		}
 		for k, fv := range info.fn.FreeVars {
 			if k >= len(info.bindings) {
 				continue
